@@ -681,14 +681,15 @@ func grpcParseTimeout(timeout string) (time.Duration, error) {
 	if !ok {
 		return 0, fmt.Errorf("gRPC protocol error: timeout %q has invalid unit", timeout)
 	}
-	num, err := strconv.ParseInt(timeout[:len(timeout)-1], 10 /* base */, 64 /* bitsize */)
-	if err != nil || num < 0 {
+	// The value is a string of digits: unlike ParseInt, ParseUint accepts no sign.
+	num, err := strconv.ParseUint(timeout[:len(timeout)-1], 10 /* base */, 64 /* bitsize */)
+	if err != nil {
 		return 0, fmt.Errorf("gRPC protocol error: invalid timeout %q", timeout)
 	}
 	if num > 99999999 { // timeout must be ASCII string of at most 8 digits
 		return 0, fmt.Errorf("gRPC protocol error: timeout %q is too long", timeout)
 	}
-	if unit == time.Hour && num > grpcTimeoutMaxHours {
+	if unit == time.Hour && int64(num) > grpcTimeoutMaxHours {
 		// Timeout is effectively unbounded, so ignore it. The grpc-go
 		// implementation does the same thing.
 		return 0, errNoTimeout
